@@ -210,6 +210,10 @@ def snippet(rng, words, depth=0):
         return b'"' + q.replace(b"a", b"~") + b'".replace(/~/g, "a")'
     if k == 27:
         return b" ".join(b"%02x" % c for c in p[:60]) if rng.random() < 0.5 else b", ".join(b"%02X" % c for c in p[:60])
+    if k in (28, 3) and rng.random() < 0.6:
+        # numeric literals padded far beyond what anybody would write by hand
+        z = b"0" * rng.choice([30, 700, 700, 4400])
+        return rng.choice([b"chr(" + z + b"104)&chr(" + z + b"116)", b"chr(" + z + b"104)&chr(" + z + b"116)", b"&#" + z + b"65;" * 6, b"http://" + z + b"10.1.2.3/x"])
     if k == 28:
         return rng.choice([b"0x7f.0x0.0x0.0x1", b"0300.0250.0001.0012", b"http://0xC0A80101/x", b"3232235777", b"192.168.001.010"])
     if k == 29:
@@ -360,7 +364,8 @@ def env_vars(rng):
                        ("LANG", ["C", "en_US.UTF-8", "de_DE.UTF-8", "tr_TR.UTF-8"]), ("TZ", ["UTC", "Asia/Tokyo", "America/St_Johns"]),
                        ("COLUMNS", ["40", "200"]), ("TERM", ["dumb", "xterm-256color"]), ("NO_COLOR", ["1"]), ("PYTHONUTF8", ["1"]),
                        ("APPDATA", ["C:\\Users\\victim\\AppData\\Roaming", "/srv/appdata"]), ("TEMP", ["C:\\Temp", "/var/tmp"]),
-                       ("USERNAME", ["victim", "svc_scan"]), ("PUBLIC", ["C:\\Users\\Public"]), ("SystemRoot", ["C:\\WINNT"])):
+                       ("USERNAME", ["victim", "svc_scan"]), ("PUBLIC", ["C:\\Users\\Public"]), ("SystemRoot", ["C:\\WINNT"]),
+                       ("PYTHONINTMAXSTRDIGITS", ["0", "640", "640", "100000"])):
         if rng.random() < 0.4:
             out[k] = rng.choice(choices)
     return out
